@@ -141,6 +141,83 @@ def rw_inline_closure(text, name, log):
     return _replace_spans(text, spans)
 
 
+
+def rw_guard_to_if(text, log):
+    """R11: in a match whose last arm is `_ => LIT`, every arm `PATH if G => E` becomes `PATH => if G { E } else { LIT }`.
+    Valid because (checked here) each guarded pattern is a plain enum path that occurs in exactly one arm, so a failed
+    guard can only fall through to the final wildcard arm, whose value is a literal without effects.
+    (Verus mis-handles an early return inside a guarded arm when a &mut ghost parameter is live.)"""
+    st = rtok.sig(rtok.lex(text))
+    done = 0
+    for mi in range(len(st)):
+        if st[mi][1] != 'match' or st[mi][0] != 'ident':
+            continue
+        j = mi + 1
+        while st[j][1] != '{':
+            if st[j][1] in ('(', '['):
+                j = rtok.match_close(st, j)
+            j += 1
+        mopen, mclose = j, rtok.match_close(st, j)
+        # split arms
+        arms = []
+        k = mopen + 1
+        while k < mclose:
+            a0 = k
+            depth = 0
+            arrow = None
+            guard = None
+            while k < mclose:
+                t = st[k][1]
+                if st[k][0] == 'punct' and t in ('(', '[', '{'):
+                    k = rtok.match_close(st, k)
+                elif t == 'if' and guard is None and arrow is None:
+                    guard = k
+                elif t == '=>':
+                    arrow = k
+                    break
+                k += 1
+            if arrow is None:
+                break
+            e0 = arrow + 1
+            if st[e0][1] == '{':
+                e1 = rtok.match_close(st, e0)
+                k = e1 + 1
+                if k < mclose and st[k][1] == ',':
+                    k += 1
+            else:
+                k = e0
+                while k < mclose and st[k][1] != ',':
+                    if st[k][1] in ('(', '[', '{'):
+                        k = rtok.match_close(st, k)
+                    k += 1
+                e1 = k - 1
+                if k < mclose:
+                    k += 1
+            arms.append((a0, guard, arrow, e0, e1))
+        if not any(a[1] is not None for a in arms):
+            continue
+        last = arms[-1]
+        pat_last = [x[1] for x in st[last[0]:last[2]]]
+        lit = st[last[3]:last[4] + 1]
+        if pat_last != ['_'] or len(lit) != 1 or lit[0][1] not in ('true', 'false') and lit[0][0] != 'num':
+            raise AnchorLost('R11: match with guards does not end in `_ => literal`')
+        pats = [' '.join(x[1] for x in st[a[0]:(a[1] if a[1] is not None else a[2])]) for a in arms]
+        spans = []
+        for a, ptxt in zip(arms, pats):
+            if a[1] is None:
+                continue
+            if pats.count(ptxt) != 1 or not re.match(r'^\w+( :: \w+)+$', ptxt):
+                raise AnchorLost('R11: guarded pattern `%s` is not a unique plain enum path' % ptxt)
+            g0, arrow, e0, e1 = a[1], a[2], a[3], a[4]
+            gtxt = text[st[g0 + 1][2]:st[arrow - 1][3]]
+            spans.append((st[g0][2], st[arrow][3], '=> if ' + gtxt + ' {'))
+            spans.append((st[e1][3], st[e1][3], ' } else { ' + lit[0][1] + ' }'))
+            done += 1
+        log.append('R11 %d guarded arm(s) `P if G => E` -> `P => if G { E } else { %s }`' % (len([a for a in arms if a[1] is not None]), lit[0][1]))
+        return _replace_spans(text, spans)
+    raise AnchorLost('R11: no match with guards found')
+
+
 def rw_vecslice(text, names, log):
     """R8: `&mut NAME[` -> `&mut NAME.as_mut_slice()[` ; `&NAME[` -> `&NAME.as_slice()[`"""
     st = rtok.sig(rtok.lex(text))
@@ -367,6 +444,8 @@ def build_fn(fs, repo, effectful, table_keys, canary=False):
             text = rw_unwrap_or_else(text, log)
         elif kind == 'and_then':
             text = rw_and_then(text, log)
+        elif kind == 'guard_to_if':
+            text = rw_guard_to_if(text, log)
         elif kind == 'inline_closure':
             text = rw_inline_closure(text, arg, log)
         elif kind == 'vecslice':
